@@ -86,4 +86,9 @@ example (buf : List Byte) (hb : buf.length = 200) : runEnc (.marshalTo buf) exVa
     have : vsize exVal = 94 := by decide
     omega)
 
+/-- The model treats an enum as a scalar of its base width everywhere (this is what the Size() short cut for arrays of enums rests on). The
+    regenerated fact says File.fixedSizes does so for EVERY enum, imported ones included (loop over f.Enums with
+    the single statement `out[en.Name] = fixedSizeTypes[en.SimpleType]`). -/
+theorem C02_enum_sizes_as_modelled : Facts.enumFixedSizeRule = "base-width" := by decide
+
 end Bebop
